@@ -1,5 +1,6 @@
 import PGA.Model.Decompose
 import PGA.Spec.Embeds
+import PGA.Spec.MolUnion
 /-! Decidable guards on a loaded scheme used as hypotheses of the end-to-end theorems (and reported by the driver for
 every scheme it is sent). -/
 namespace PGA.Decompose
@@ -13,5 +14,10 @@ def SchemeDef.noStar (S : SchemeDef) : Bool := S.centres.all (NoStar ·.q) && S.
 
 /-- no pattern of the scheme has a molecule-level prefix (`cyclic fragment …`, `olefinic fragment …`) -/
 def SchemeDef.noMolPrefix (S : SchemeDef) : Bool := S.centres.all (·.q.molPre.isEmpty) && S.descs.all (·.q.molPre.isEmpty)
+
+/-- every pattern of the scheme is connected and has at least one atom (guaranteed by the reader: `load_connected`) -/
+def SchemeDef.connected (S : SchemeDef) : Bool :=
+  S.centres.all (fun c => c.q.connected && decide (0 < c.q.atoms.length)) &&
+  S.descs.all (fun d => d.q.connected && decide (0 < d.q.atoms.length))
 
 end PGA.Decompose
